@@ -2,7 +2,7 @@
 import json, os
 from ..facts import ty_adt, tystr, walk_ty, place_local, place_proj, op_place, strip_refs
 from ..cfg import CFG, Tracer, thaw
-from .. import dt, instance, core
+from .. import dt, instance, core, inline
 from . import c06
 
 UB = "conjure_http::private::client::uri_builder::UriBuilder"
@@ -342,6 +342,39 @@ def run(ctx):
             ctx.violation("R7.6", b.loc(ln), f"{pretty}|{what}", f"{pretty}: `{what}` can panic: building a URI must complete or report an error"
                           + (" — Uri::from_maybe_shared fails with TooLong for URIs longer than 65534 bytes (InvalidUriChar and Empty are excluded by R7.1-R7.3)" if name == "build" else ""))
 
+    # ---------------- R7.8 a query parameter's *name* is percent-encoded exactly once on its way into the URI: by the macro at
+    # expansion time (then the runtime writes it raw) — and from the declared name itself, not from a decoded / normalised form
+    cmac_ = F.crate("conjure_macros")
+    VIEWS = {"value", "as_bytes", "as_str", "deref", "as_ref", "borrow", "to_string", "clone"}
+    m_enc, m_bad = 0, []
+    for mb_ in [x for x in cmac_.bodies if x.name == "add_query_arg" and x.kind == "fn"]:
+        ex_ = inline.expand(cmac_, mb_, depth=2, pred=lambda cb: cb.d.get("vis") != "pub")
+        for bb, t in ex_.calls():
+            if t["call"]["def"].startswith("percent_encoding::percent_encode") and t["args"]:
+                m_enc += 1
+                roots_, via_ = dt.transforming_calls(ex_, t["args"][0])
+                m_bad += [c_["call"]["name"] for c_ in via_ if c_["call"]["name"] not in VIEWS]
+    r_esc = 0
+    for rb_ in [x for x in c.bodies if x.name == "push_query_parameter_raw" and x.kind == "assoc_fn"]:
+        derived, work_ = set(), [2]
+        while work_:
+            l_ = work_.pop()
+            if l_ in derived:
+                continue
+            derived.add(l_)
+            for _, uj, it in dt.uses_of_local(rb_, l_):
+                if uj != "T" and "d" in it and ("ref" in it["r"] or "use" in it["r"]) and isinstance(it["d"], int):
+                    work_.append(it["d"])
+                if uj == "T" and "call" in it and it["call"]["name"] in ("as_bytes", "deref", "as_ref", "borrow"):
+                    work_.append(place_local(it["dest"]))
+        for l_ in derived:
+            for _, uj, it in dt.uses_of_local(rb_, l_):
+                if uj == "T" and "call" in it and it["call"]["name"] in ("push_escaped", "percent_encode", "utf8_percent_encode", "byte_serialize"):
+                    r_esc += 1
+    if m_enc or r_esc:
+        ctx.check(m_enc + r_esc == 1 and not m_bad, "R7.8", "conjure-macros/src/client.rs", "query-name|encoded-once",
+                  f"a macro client's query parameter name is percent-encoded {m_enc} time(s) at expansion time (through {m_bad or 'nothing else'}) and {r_esc} time(s) by UriBuilder::push_query_parameter_raw: it must be encoded exactly once, from the declared name itself — twice (or from a decoded form) and the server looks the value up under another key",
+                  instance="query name: percent-encoded once (by the macro), written raw by the runtime")
     # ---------------- R7.7 generators bind each path-template parameter to the argument of the same name
     # (a positional binding writes values into the wrong segments as soon as the arguments are declared in another order)
     tm = F.tmpl()
